@@ -29,10 +29,10 @@ type cbModel struct {
 	// closed / half-open: results recorded in the current state
 	recs []cbRecord
 	// open
-	openedAt int64
-	delay    int64
-	frozen   [5]uint // metrics of the state before opening
-	dirtyOpen bool   // something was recorded while open: metrics unspecified until the next transition
+	openedAt  int64
+	delay     int64
+	frozen    [5]uint // metrics of the state before opening
+	dirtyOpen bool    // something was recorded while open: metrics unspecified until the next transition
 	// half-open
 	permits     int
 	outstanding int // trial permits handed out and not yet returned
@@ -67,8 +67,8 @@ func (m *cbModel) window() [][2]int {
 	if m.state == circuitbreaker.ClosedState && m.timeBased() {
 		P := int64(m.s.FPeriod)
 		now := m.now()
-		lo := now - P          // records at or before lo never count
-		hi := now - P*9/10     // records at or after hi always count
+		lo := now - P      // records at or before lo never count
+		hi := now - P*9/10 // records at or after hi always count
 		cuts := []int64{hi}
 		for _, r := range m.recs {
 			if r.at > lo && r.at < hi {
@@ -263,12 +263,12 @@ func (m *cbModel) requirement(ok bool) string {
 
 // cbRun drives the real breaker and the model in lockstep.
 type cbRun struct {
-	s      Spec
-	cb     circuitbreaker.CircuitBreaker[int]
-	m      *cbModel
-	events []string
+	s         Spec
+	cb        circuitbreaker.CircuitBreaker[int]
+	m         *cbModel
+	events    []string
 	evMetrics [][5]uint
-	slice  int64
+	slice     int64
 }
 
 func cbMetricsOf(x circuitbreaker.Metrics) [5]uint {
